@@ -27,7 +27,8 @@ RULE = ("lattice cases (every input residue name x position x force field), synt
         "without 5' phosphate; options: debump/opt on-off, assign-only, clean, drop-water, neutral termini, pKa-driven "
         "states through the stubbed pKa source. Non-trivial: run that added, removed or renamed at least one atom; "
         "distinct = (force field, option set, final state, position) cells plus optimisation branches entered"
-        ' Round-2 additions: long real stretches; alternate atom names (documented aliases) and alternate locations on the same atoms; v3 RNA names.')
+        ' Round-2 additions: long real stretches; alternate atom names (documented aliases) and alternate locations on the same atoms; v3 RNA names.'
+        ' Round-3/4 additions: the residue view of the final model is traced against written + reported atoms; chain-topology stressors (several molecules under one chain id) with --clean; --ligand runs with four-site waters; unequal carboxyl C-O bonds.')
 ASSUMPTIONS = ["a deletion is 'reported' when a WARNING record names the atom and its residue number, or it is the "
                "5'-terminal phosphate group (P, OP1/O1P, OP2/O2P) of a strand",
                "alternate atom names are the ones listed in AA.xml / NA.xml / PATCHES.xml",
